@@ -19,10 +19,23 @@
 (*    subsets and all 16 subsets of the copy / case-matching ParseFlags,   *)
 (*    with what each is allowed to change (representation or copying,      *)
 (*    never meaning).                                                      *)
+(*                                                                         *)
+(* 3. Whether Append fails.  A value can hold one fault - a raw message    *)
+(*    that is not JSON, a marshal method whose output is not JSON, a       *)
+(*    method that returns an error, a kind no flag makes encodable, a      *)
+(*    float that JSON cannot write, a Number that is no number - in one of *)
+(*    six places.  Each fault is found by a check of its own; the only     *)
+(*    check a flag switches off is that of raw messages (TrustRawMessage), *)
+(*    and the property takes those values out of its domain.  Hence:       *)
+(*    within the domain Append fails exactly when it does with the default *)
+(*    flags (ErrorParity).  TrustCovers is the set of faults whose check   *)
+(*    TrustRawMessage switches off: {"raw"} as the package is; a set that  *)
+(*    also holds "method-output" is the deviation witness.                 *)
 (***************************************************************************)
 EXTENDS Naturals, FiniteSets, TLC, Json
 
-CONSTANTS Emit
+CONSTANTS Emit,
+          TrustCovers   \* the faults whose check TrustRawMessage switches off
 
 NumFlags    == {"UseNumber", "UseBigInt", "UseInt64", "UseUint64"}
 Classes     == {"u63", "u64", "neg", "posover", "negover", "flt"}
@@ -49,9 +62,17 @@ MayChange(A) == (IF "EscapeHTML" \in A THEN {} ELSE {"html-escapes"})
                 \cup (IF "SortMapKeys" \in A THEN {} ELSE {"member-order"})
                 \cup (IF "TrustRawMessage" \in A THEN {"raw-not-validated"} ELSE {})
 
-VARIABLES c, F, A, P
-vars == <<c, F, A, P>>
-Init == c \in Classes /\ F \in SUBSET NumFlags /\ A \in SUBSET AppendFlags /\ P \in SUBSET CopyFlags
+Faults    == {"none", "raw", "method-output", "method-error", "text-method-error", "kind", "float", "number"}
+Places    == {"top", "field", "element", "map-value", "pointer", "interface"}
+Default   == {"EscapeHTML", "SortMapKeys"}
+Fails(f, AA)    == f # "none" /\ ~(f \in TrustCovers /\ "TrustRawMessage" \in AA)
+InDomain(f, AA) == ~(f = "raw" /\ "TrustRawMessage" \in AA)
+
+VARIABLES c, F, A, P, fault, place
+vars == <<c, F, A, P, fault, place>>
+Init == /\ c \in Classes /\ F \in SUBSET NumFlags /\ A \in SUBSET AppendFlags /\ P \in SUBSET CopyFlags
+        /\ \/ fault = "none" /\ place = "top"
+           \/ c = "u63" /\ F = {} /\ P = {} /\ fault \in Faults /\ place \in Places
 Next == UNCHANGED vars
 Spec == Init /\ [][Next]_vars
 
@@ -69,6 +90,13 @@ FloatOnlyByDefault == DynType(c, F) = "float64" => ("UseNumber" \notin F /\ (IsI
 \* the default AppendFlags change nothing
 DefaultChangesNothing == MayChange({"EscapeHTML", "SortMapKeys"}) = {}
 
-EmitTable == (Emit /\ A = {} /\ P = {}) => PrintT(ToJson([cls |-> c, flags |-> F, type |-> DynType(c, F)]))
-EmitConfig == (Emit /\ c = "u63" /\ F = {}) => PrintT(ToJson([append |-> A, parse |-> P, may |-> MayChange(A)]))
+\* within the domain of the property the flags have no say in whether Append fails
+ErrorParity == InDomain(fault, A) => (Fails(fault, A) <=> Fails(fault, Default))
+\* and the one flag that speaks of validation speaks of raw messages only
+TrustIsAboutRawMessages == TrustCovers \subseteq {"raw"}
+
+EmitFault == (Emit /\ c = "u63" /\ F = {} /\ P = {} /\ ~(fault = "none" /\ place # "top")) =>
+  PrintT(ToJson([fault |-> fault, place |-> place, append |-> A, fails |-> Fails(fault, A), indomain |-> InDomain(fault, A)]))
+EmitTable == (Emit /\ A = {} /\ P = {} /\ fault = "none" /\ place = "top") => PrintT(ToJson([cls |-> c, flags |-> F, type |-> DynType(c, F)]))
+EmitConfig == (Emit /\ c = "u63" /\ F = {} /\ fault = "none" /\ place = "top") => PrintT(ToJson([append |-> A, parse |-> P, may |-> MayChange(A)]))
 =============================================================================
